@@ -247,7 +247,7 @@ def instance_desc(draw, classes, family, depth, cname=None):
         for t, (kind, _d) in TUNABLES.items():
             if draw(st.booleans()):
                 if kind == "int":
-                    tun[t] = draw(st.one_of(st.integers(1, 500), st.sampled_from([0, 1])))
+                    tun[t] = draw(st.one_of(st.integers(1, 500), st.sampled_from([0, 1, 10, 10000])))  # incl. the classes' own defaults
                 elif kind == "label":
                     tun[t] = draw(st.sampled_from([None, -1, 0, 3]))
                 else:
@@ -489,6 +489,10 @@ def build_sim(case):
         add(mc, DisplacementMove(np.arange(3)), "aa_d", "default_displacement_move", 1)
     else:
         sp = Atoms("Ar" * case["species_n"], positions=[[0, 0, 1.2 * i] for i in range(case["species_n"])])
+        if case.get("seed", 0) % 3 != 1:
+            # an exchange species with per-atom data of its own (isotope masses, tags)
+            sp.set_masses([2.014 + 1.5 * i for i in range(len(sp))])
+            sp.set_tags([7 + i for i in range(len(sp))])
         mc = gcmc.GrandCanonical(atoms, exchange_atoms=sp, temperature=case["T"], chemical_potential=case["mu"], number_of_exchange_particles=case["nex"], **kw)
         mc.accessible_volume = case["vacc"]
         add(mc, ExchangeMove(np.arange(3)), "zz_x", "default_exchange_move", 0)
@@ -549,7 +553,8 @@ def run_sim(case):
         return out
     if case["driver"] == "GrandCanonical":
         a, b = mc.exchange_atoms, mc2.exchange_atoms
-        if len(a) != len(b) or not np.array_equal(a.numbers, b.numbers) or not np.array_equal(a.positions, b.positions):
+        if len(a) != len(b) or not np.array_equal(a.numbers, b.numbers) or not np.array_equal(a.positions, b.positions) \
+                or not np.array_equal(a.get_masses(), b.get_masses()) or not np.array_equal(a.get_tags(), b.get_tags()):
             out["violation"] = {"kind": "sim-setting-lost:GrandCanonical:exchange_atoms", "detail": "exchange species differs after the round trip"}
             return out
     if list(mc.moves) != list(mc2.moves):
